@@ -90,6 +90,87 @@ def run_sequence(R, B, fields, W):
     R.check(s.remaining_bits == 0 and s.remaining_refs == 0, 'left-unread', 'something left unread after loading every field', W)
 
 
+def api_variants(R, B, rng):
+    """the alternative spellings of the same stores / loads: string with the default length, every argument form of store_bit, prefixed snake strings,
+    ExternalAddress built from hex text / bytes / int, Address built from an Address, Builder.to_cell / to_slice, zero-width peeks.  Expected bits by hand from the TL-B rules."""
+    from pytoniq_core.boc.address import Address, ExternalAddress
+    from pytoniq_core.boc.tvm_bitarray import TvmBitarray
+
+    def bits_of_bytes(b):
+        return ''.join(f'{x:08b}' for x in b)
+
+    def case(name, build, want_bits, reads, W=None):
+        """build() -> builder; its bits must equal want_bits; reads(slice) -> list of (what, got, want)"""
+        W = dict(W or {}, variant=name)
+        st, b = mon.call(build)
+        R.count('api_variant_cases')
+        R.cover('api_variants', name)
+        if st == 'exc':
+            R.violation(f'api-variant-store-raises-{name}', f'{name}: store raised {b!r}', W)
+            return
+        got = b.bits.to01()
+        if not R.check(got == want_bits, f'api-variant-bits-{name}', f'{name}: wrote {got[:80]} expected {want_bits[:80]}', W):
+            return
+        st, res = mon.call(reads, b.end_cell().begin_parse())
+        if st == 'exc':
+            R.violation(f'api-variant-load-raises-{name}', f'{name}: load raised {res!r}', W)
+            return
+        for what, g, w in res:
+            R.check(g == w and type(g) is type(w), f'api-variant-value-{name}', f'{name}: {what} gave {mon.srepr(g, 60)} ({type(g).__name__}), expected {mon.srepr(w, 60)}', W)
+    for text in ('', 'a', 'héllo wörld', 'ascii only', '€' * 40, 'x' * 127):
+        enc = text.encode()
+        pre = gen.rand_bits(rng, rng.choice([0, 3, 8]) if len(enc) <= 126 else 0)
+        # a string as the last field, read with the default length (= everything that is left)
+        case('string-default-length', lambda: B.Builder().store_bits(pre).store_string(text), pre + bits_of_bytes(enc),
+             lambda s: (s.skip_bits(len(pre)), [('preload_string()', s.preload_string(), text), ('remaining after preload', s.remaining_bits, 8 * len(enc)),
+                                                ('load_string()', s.load_string(), text), ('remaining', s.remaining_bits, 0)])[1], {'text': text[:20], 'prefix_bits': len(pre)})
+        case('string-explicit-length', lambda: B.Builder().store_string(text).store_uint(5, 3), bits_of_bytes(enc) + '101',
+             lambda s: [('preload_string(n)', s.preload_string(len(enc)) if enc else '', text), ('load_string(n)', s.load_string(len(enc)) if enc else '', text),
+                        ('then uint', s.load_uint(3), 5)], {'text': text[:20]})
+        for prefix in (False, True):
+            data = (b'\x00' if prefix else b'') + enc
+            case(f'snake-string-prefix{int(prefix)}', lambda: B.Builder().store_snake_string(text, prefix) if prefix else B.Builder().store_snake_string(text), bits_of_bytes(data[:127]),
+                 lambda s: [('load_snake_bytes', s.copy().load_snake_bytes(), data), ('load_snake_string', s.load_snake_string(), data.decode())], {'text': text[:20]})
+    long_text = 'ж' * 400          # 800 bytes + prefix: crosses several cells
+    case('snake-string-prefix1-long', lambda: B.Builder().store_snake_string(long_text, True), bits_of_bytes((b'\x00' + long_text.encode())[:127]),
+         lambda s: [('load_snake_string', s.load_snake_string(), '\x00' + long_text)], {})
+    for arg, bit in ((1, '1'), (0, '0'), (True, '1'), (False, '0'), ('1', '1'), ('0', '0')):
+        case(f'store_bit-{type(arg).__name__}', lambda: B.Builder().store_bit(arg).store_bit_int(1).store_bool(False), bit + '10',
+             lambda s: [('load_bit', s.load_bit(), int(bit)), ('load_bool', s.load_bool(), True), ('preload_bit', s.preload_bit(), 0)], {'arg': repr(arg)})
+    for src in ('1', '0', '10', '01'):
+        t = TvmBitarray(8)
+        t.extend(src)
+        case('store_bit-TvmBitarray', lambda: B.Builder().store_bit(t), src[0], lambda s: [('load_bit', s.load_bit(), int(src[0]))], {'arg': src})
+    # zero-width peeks and reads in the middle of data
+    case('zero-width-peeks', lambda: B.Builder().store_uint(0xAB, 8), '10101011',
+         lambda s: [('preload_uint(0)', s.preload_uint(0), 0), ('preload_int(0)', s.preload_int(0), 0), ('load_uint(0)', s.load_uint(0), 0), ('load_int(0)', s.load_int(0), 0),
+                    ('remaining', s.remaining_bits, 8), ('preload_int(8)', s.preload_int(8), 0xAB - 256), ('load_uint(8)', s.load_uint(8), 0xAB)])
+    # external addresses from every constructor form
+    for val, ln in ((0xff0a, 16), (1, 1), (0, 5), (0x00ab, 16), ((1 << 300) | 1, 301)):
+        want = '01' + f'{ln:09b}' + (f'{val:0{ln}b}' if ln else '')
+        forms = [('int', lambda: ExternalAddress(val, ln))]
+        if ln % 8 == 0 and ln:
+            forms += [('hex-str', lambda: ExternalAddress(val.to_bytes(ln // 8, 'big').hex(), ln)), ('bytes', lambda: ExternalAddress(val.to_bytes(ln // 8, 'big'), ln))]
+        for fname, mk in forms:
+            case(f'external-address-from-{fname}', lambda: B.Builder().store_address(mk()).store_bit(1), want + '1',
+                 lambda s: [('preload_address', (lambda a: (a.external_address, a.len))(s.preload_address()), (val, ln)),
+                            ('load_address', (lambda a: (a.external_address, a.len))(s.load_address()), (val, ln)), ('then bit', s.load_bit(), 1)], {'value': str(val), 'len': ln})
+    # Address from an Address, from its raw and friendly text, stored through store_address(str)
+    for wc in (0, -1, 127, -128):
+        hp = rng.randbytes(32)
+        a = Address((wc, hp))
+        want = '100' + f'{wc & 0xFF:08b}' + bits_of_bytes(hp)
+        for fname, arg in (('Address-copy', Address(a)), ('raw-str', a.to_str(False)), ('friendly-str', a.to_str(True)), ('Address', a)):
+            case(f'store_address-{fname}', lambda: B.Builder().store_address(arg), want,
+                 lambda s: [('load_address', (lambda x: (x.wc, x.hash_part))(s.load_address()), (wc, hp))], {'wc': wc})
+        R.check(a.to_cell().bits.to01() == want and a.to_tl_account_id() == {'workchain': wc, 'id': hp.hex()}, 'api-variant-value-Address.to_cell', 'Address.to_cell / to_tl_account_id differ', {'wc': wc})
+    # Builder.to_cell / to_slice are snapshots with the builder's content
+    b = B.Builder().store_uint(0x5A, 8).store_ref(B.Builder().store_uint(3, 2).end_cell())
+    c, sl = b.to_cell(), b.to_slice()
+    R.check(c.hash == b.end_cell().hash and sl.bits.to01() == '01011010' and sl.remaining_refs == 1 and sl.load_ref().hash == c.refs[0].hash, 'api-variant-value-to_cell-to_slice',
+            'Builder.to_cell / to_slice do not carry the builder content', {})
+
+
 def gen_sequence(rng, leafs, want_full):
     fields, bits, refs = [], 0, 0
     target_n = rng.choice([1, 2, 3, 5, 8, 20])
@@ -184,6 +265,8 @@ def run(R):
         for n in (0, 1, (1023 - fill) // 8, (1023 - fill) // 8 + 1, 127 + (1023 - fill) // 8 + 1, 700):
             run_sequence(R, B, [M.Bits(value=gen.rand_bits(rng, fill), how=0), M.Snake(value=rng.randbytes(n), how=0)], {'sweep': 'snake', 'fill': fill, 'n': n})
             R.case(mon.fp('s', fill, n))
+    if R.shard == 0:
+        api_variants(R, B, rng)
     # random sequences
     n = (4000 if quick else 1600000) // R.nshards
     for i in range(n):
@@ -196,6 +279,8 @@ def run(R):
     R.floor('sequences_exactly_1023_bits', 20)
     R.floor('sequences_exactly_4_refs', 20)
     R.floor('kinds', 18, 'set')
+    if R.shard == 0:
+        R.floor('api_variants', 12, 'set')
     if R.nshards == 1:
         R.floor('uint_widths', 256, 'set')
         R.floor('int_widths', 257, 'set')
